@@ -46,6 +46,10 @@ def cases(tier, seed):
                                            "na_prob": 0.08}):
         spec["kind"] = "pipe"
         out.append(spec)
+    for spec in workload.long_cases(seed, 7 if tier == "quick" else 210, opts_fn=opts,
+                                    long_max=60 if tier == "quick" else 400):
+        spec["kind"] = "pipe"
+        out.append(spec)
     nstress = 8 if tier == "quick" else 1500
     for i in range(nstress):
         ff = common.FFS[i % 6] if False else ["AMBER", "CHARMM", "PARSE", "TYL06", "PEOEPB", "SWANSON"][i % 6]
